@@ -759,7 +759,7 @@ def ops_index_point_roundtrip(h):
 
 
 def _mk_transform(with_inverse):
-    @contract("C13", VT + ".Transform", name="transform-then-inverse[scale+translate]" if with_inverse else "transform_points[scale+translate]", timeout=120000)
+    @contract("C13", VT + ".Transform", name="transform-then-inverse[scale+translate]" if with_inverse else "transform_points[scale+translate]", timeout=120000, tier="thorough" if with_inverse else "quick")
     def transform_roundtrip(h):
         _transform_roundtrip(h, with_inverse)
 
@@ -813,6 +813,45 @@ def _transform_roundtrip(h, with_inverse):
 
 _mk_transform(False)
 _mk_transform(True)
+
+
+def _mk_fixed_transform(tag, sc, tr):
+    @contract("C13", "trimesh.voxel.base.VoxelGrid.points_to_indices", name="inverse-of-indices_to_points[%s; every index]" % tag, timeout=60000, note="the quick-tier companion of transform-then-inverse (every transform, thorough tier): a fixed scale / translate transform, every integer index (negative ones included) and every offset of less than half a cell")
+    def fixed(h):
+        from pyvc.engine import Ghost
+
+        np = h.np
+        sym = h.mode == "sym"
+
+        # a ghost transform (the real Transform class is under contract in the thorough tier):
+        # p = s * i + t and its exact inverse
+        def fwd(pts):
+            rows = [[sc[k] * pts[r, k] + tr[k] for k in range(3)] for r in range(pts.shape[0])]
+            return np.array(rows) if sym else rnp.array(rows, dtype=float)
+
+        def inv(pts):
+            rows = [[(pts[r, k] - tr[k]) / sc[k] for k in range(3)] for r in range(pts.shape[0])]
+            return np.array(rows) if sym else rnp.array(rows, dtype=float)
+
+        grid = Ghost(_transform=Ghost(transform_points=fwd, inverse_transform_points=inv))
+        VG = "trimesh.voxel.base.VoxelGrid"
+        I = h.ints("i", (1, 3))
+        h.assume([h.all([I[0, k] >= -10**6, I[0, k] <= 10**6]) for k in range(3)] if h.mode == "sym" else True)
+        P = h.method(VG + ".indices_to_points")(grid, I)
+        h.check("points=M.i", h.all([h.eq(P[0, k], sc[k] * I[0, k] + tr[k], atol=1e-9) for k in range(3)]))
+        J = h.method(VG + ".points_to_indices")(grid, P)
+        h.check("points_to_indices(indices_to_points(i))=i", h.exact(J, I))
+        d = h.reals("d", 3)
+        h.assume([h.all([d[k] > -0.49, d[k] < 0.49]) for k in range(3)] if h.mode == "sym" else all(abs(x) < 0.49 for x in d))
+        Q = np.array([[P[0, k] + d[k] * sc[k] for k in range(3)]]) if h.mode == "sym" else rnp.array([[P[0, k] + d[k] * sc[k] for k in range(3)]], dtype=float)
+        J2 = h.method(VG + ".points_to_indices")(grid, Q)
+        h.check("points-within-half-a-cell-map-to-the-same-cell", h.exact(J2, I))
+
+    return fixed
+
+
+_mk_fixed_transform("s=(0.5,2,1.5) t=(10,-3,0.25)", (0.5, 2.0, 1.5), (10.0, -3.0, 0.25))
+_mk_fixed_transform("mirror s=(-1,1,0.25) t=(2,0,-7)", (-1.0, 1.0, 0.25), (2.0, 0.0, -7.0))
 
 
 @bounded("C13", name="real-code:voxelgrid-point-queries", note="VoxelGrid.is_filled / points_to_indices / indices_to_points for 4 encodings x 4 transforms: every cell centre from two cells below to two cells above the grid on every axis, exact and jittered by +-0.4 cell, in shuffled order")
